@@ -79,8 +79,9 @@ BAD_OPERANDS = {
     "-perm": ["8", "9", "18", "77777", "-8", "/9", "q", "u=q", "u+z", "hello", "-99", "/88888", "u=8", "a=rwxq", "789", "", "-", "/", "u=r,", "-u=rw,g=r,",
               ",u=r", "u=r,,g=r", "/u=w,", "-,"],
     "-regextype": ["foo", "", "posix", "POSIX-BASIC", "emacs ", "perl", "extended", "é"],
-    "-user": ["nosuchuser_verif_xyz", "", "no such user"],
-    "-group": ["nosuchgroup_verif_xyz", "", "no such group"],
+    # (all-digit operands that are neither a name nor a possible id: 2^32 and above)
+    "-user": ["nosuchuser_verif_xyz", "", "no such user", "4294967296", "18446744073709551615", "99999999999", "9223372036854775808"],
+    "-group": ["nosuchgroup_verif_xyz", "", "no such group", "4294967296", "18446744073709551615", "99999999999", "9223372036854775808"],
     "-printf": ["abc%", "%", "%p%", "x%A", "%C", "%T", "abc%5", "%-", "%A", "%p%T"],
     "-newer": ["/nonexistent/verif-ref", "r/missing-ref"],
     "-neweram": ["/nonexistent/verif-ref"],
@@ -283,12 +284,14 @@ def rand_printf(rng):
         r = rng.random()
         if r < 0.5:
             d = rng.choice(PRINTF_DIRECTIVES)
-            w = rng.choice(["", "", "5", "-5", "0", "-", "20", "-12", " ", "99999999999999999999", "300", "65535", "65536", "-65536", "70000", "100000"])
+            w = rng.choice(["", "", "5", "-5", "0", "-", "20", "-12", " ", "99999999999999999999", "300", "65535", "65536", "-65536", "70000", "100000",
+                            # characters that are numeric in Unicode but not ASCII digits, where a width may stand
+                            "²", "٣", "-½", "1²", "①", "٣٣", "５", "1５", "-٣", " ²"])
             out.append("%" + w + d)
         elif r < 0.7:
             out.append(rng.choice(["\\n", "\\t", "\\0", "\\\\", "\\101", "\\a", "\\c", "\\é", "\\", "\\9", "\\18", "\\777"]))
         elif r < 0.8:
-            out.append(rng.choice(["%", "%%", "%é", "%-", "%5", "%A", "%T", "%Cé"]))
+            out.append(rng.choice(["%", "%%", "%é", "%-", "%5", "%A", "%T", "%Cé", "%²", "%٣", "%-①", "%1½"]))
         else:
             out.append(rng.choice(["x", " ", "é", "日本", ":", "/"]))
     return "".join(out)
@@ -585,6 +588,33 @@ def targeted_worker(job):
                     shown = argv if len(argv) < 12 else argv[:4] + ["... %d tokens ..." % len(argv)] + argv[-2:]
                     st.violate("binary-panic-or-hang", None, {"args": shown, "stdout": out_to, "rc": rc, "timeout": to, "stderr": err[-300:]},
                                {"args": shown, "stdout": out_to, "via": "binary"})
+        # faults on the diagnostic side: stderr is a full device. A run that has nothing to diagnose must be unaffected; a run that has
+        # something to diagnose cannot deliver it, but must still end with an ordinary non-zero status
+        if k == 8:
+            if os.path.exists(sb):
+                common.force_rmtree(sb)
+            os.makedirs(sb)
+            build_fuzz_tree(sb)
+            for argv, due in ((["r", "-maxdepth", "0", "-print"], False), (["r", "-maxdepth", "0", "-name", "r", "-printf", "%p\\n"], False),
+                              (["r", "-maxdepth", "0", "-ls"], False),
+                              (["r", "-bogus"], True), (["/nonexistent-verif"], True), (["r", "-maxdepth", "0", "-printf", "%"], True),
+                              (["r", "-maxdepth", "0", "-exec", "/nonexistent-verif", ";"], True), (["r", "-newermt", "bogus"], True),
+                              (["r", "(", "-print"], True), (["r", "-maxdepth", "0", "-fprint", "/dev/full"], True), (["r", "missing", "-print"], True)):
+                with open("/dev/full", "wb") as se:
+                    try:
+                        p_ = subprocess.run([common.FIND] + argv, cwd=sb, env=common.clean_env(), stdout=subprocess.PIPE, stderr=se, timeout=120,
+                                            preexec_fn=common.drop_to(NOBODY))
+                        rc, to = p_.returncode, False
+                    except subprocess.TimeoutExpired:
+                        rc, to = None, True
+                st.inc("evaluations")
+                st.inc("binary_runs")
+                st.inc("unwritable_stderr_runs" + ("(diagnostic due)" if due else "(nothing to diagnose)"))
+                if to or rc in (101, 134, -6, -11, -4, -7, -8) or (not due and rc != 0) or (due and rc == 0):
+                    # known mechanism: every diagnostic is written with unwrap()/eprintln!, which panic when stderr cannot be written
+                    sig = "panic-writing-diagnostic-to-unwritable-stderr" if (due and rc == 101 and not to) else None
+                    st.violate("binary-panic-or-hang", sig, {"args": argv, "stderr": "/dev/full", "diagnostic_due": due, "rc": rc, "timeout": to},
+                               {"args": argv, "stderr": "/dev/full", "via": "binary"})
         # non-UTF-8 arguments (binary only: the library takes &str)
         if k < 4:
             if os.path.exists(sb):
